@@ -33,7 +33,15 @@ impl RequestHandler<PrepareRenameRequest> for PrepareRenameRequestHandler {
             let source_column = params.position.character as usize;
 
             if let Some(source_file) = codegen.tree().files.get(file_path) {
+                // The position may lie beyond the end of the document, beyond the end of its line or inside a character
+                if source_line >= source_file.file.num_lines() {
+                    return Ok(None);
+                }
                 let line = source_file.file.source_line(source_line);
+                let mut source_column = source_column.min(line.len());
+                while !line.is_char_boundary(source_column) {
+                    source_column -= 1;
+                }
 
                 // Try to find the start of identifier under the cursor
                 let start = line[..source_column]
